@@ -50,6 +50,7 @@ type replayOut struct {
 type state struct {
 	gateMu   sync.Mutex
 	gateCond *sync.Cond
+	infra    map[string]bool // goroutines that existed at Baseline(): harness infrastructure
 	frozen   []frozenRec
 	gates    []string // order of Gate keys recorded by the engine on this path
 	gatePos  int
@@ -246,7 +247,22 @@ func Baseline() {
 	if cur != nil {
 		time.Sleep(5 * time.Millisecond)
 		cur.base = runtime.NumGoroutine()
+		cur.mu.Lock()
+		cur.infra = goroutineIDs()
+		cur.mu.Unlock()
 	}
+}
+
+func goroutineIDs() map[string]bool {
+	buf := make([]byte, 1<<20)
+	buf = buf[:runtime.Stack(buf, true)]
+	ids := map[string]bool{}
+	for _, g := range strings.Split(string(buf), "\n\n") {
+		if f := strings.Fields(g); len(f) >= 2 && f[0] == "goroutine" {
+			ids[f[1]] = true
+		}
+	}
+	return ids
 }
 
 // Quiesce lets every other goroutine run until none can make progress and
@@ -257,15 +273,35 @@ func Quiesce() int {
 	}
 	deadline := time.Now().Add(6 * time.Second)
 	for {
-		n := runtime.NumGoroutine() - cur.base
-		if n <= 0 || time.Now().After(deadline) {
-			if n < 0 {
-				n = 0
-			}
+		n := liveUnitGoroutines()
+		if n == 0 || time.Now().After(deadline) {
 			return n
 		}
 		time.Sleep(5 * time.Millisecond)
 	}
+}
+
+// liveUnitGoroutines counts the goroutines (other than the harness's own)
+// that are executing code of the packages under test.
+func liveUnitGoroutines() int {
+	buf := make([]byte, 1<<20)
+	buf = buf[:runtime.Stack(buf, true)]
+	n := 0
+	cur.mu.Lock()
+	infra := cur.infra
+	cur.mu.Unlock()
+	for _, g := range strings.Split(string(buf), "\n\n") {
+		if f := strings.Fields(g); len(f) >= 2 && f[0] == "goroutine" && infra[f[1]] {
+			continue
+		}
+		if strings.Contains(g, "zzsym.runOne") || strings.Contains(g, "zzsym.RunReplays") || strings.Contains(g, "zzsym.liveUnitGoroutines") {
+			continue
+		}
+		if strings.Contains(g, "github.com/99designs/gqlgen/") || strings.Contains(g, "example.com/probe/") {
+			n++
+		}
+	}
+	return n
 }
 
 // RunReplays runs every replay file of $VERIF_REPLAY_DIR against the
